@@ -92,6 +92,41 @@ def check(R, F, P, cfg):
     cn = adt_of_type(F, "cleaners::Cleaner")
     R.inst("R10.4", "cleaner-no-drop-impl", cn["destructor"] is None, "Cleaner has no Drop impl of its own (drop glue drops the map's Cc): %s" % (cn["destructor"] is None), cfg=cfg, nontrivial=False)
 
+    # ---- R10.7 register really registers -----------------------------------------------------------------------------
+    R.doc("R10.7", "Cleaner::register inserts CleaningAction(Some(Box::new(action))) into the map of the Cleaner's own slot and returns Cleanable{ Weak = downgrade of that same Cc, key = the key returned by insert }")
+    rg = anchor(F, "cleaners::Cleaner::register")
+    S = Super(P, rg, opaque=DO - {rg.npath})
+    ins = [n for n in S.call_nodes() if n.ci["k"] == "call" and n.ci["npath"].startswith("slotmap::SlotMap::<K, V>::insert")]
+    dg = S.calls_to("weak::<impl cc::Cc<T>>::downgrade")
+    probs = []
+    if len(ins) != 1:
+        probs.append("%d insert sites" % len(ins))
+    if len(dg) != 1:
+        probs.append("%d downgrade sites" % len(dg))
+    if not probs:
+        a = S.args_of(ins[0])
+        val = fmt(a[1])
+        if not ("CleaningAction" in val and "Option::Some" in val and "action" in val):
+            probs.append("inserted value is %s" % val[:100])
+        if "cleaner_map" not in fmt(a[0]):
+            probs.append("inserted into %s, not into the Cleaner's own map" % fmt(a[0])[:100])
+        if "cleaner_map" not in fmt(S.args_of(dg[0])[0]):
+            probs.append("the Weak is a downgrade of %s" % fmt(S.args_of(dg[0])[0])[:80])
+        bad_ret = []
+        for p_ in tables.normal_paths(S, limit=20000):
+            rv = p_.retval()
+            if not (isinstance(rv, tuple) and rv[0] == "agg" and rv[2].endswith("cleaners::Cleanable::Cleanable")):
+                bad_ret.append(fmt(rv)[:60])
+                continue
+            vals = dict(zip(rv[4], rv[3]))
+            if "downgrade" not in fmt(vals.get("cleaner_map")) or "insert" not in fmt(vals.get("key")):
+                bad_ret.append("Cleanable{%s, %s}" % (fmt(vals.get("cleaner_map"))[:50], fmt(vals.get("key"))[:50]))
+            if not p_.calls(ins[0].ci["npath"]) and ins[0] not in p_.events:
+                bad_ret.append("a path returns without inserting")
+        if bad_ret:
+            probs.append("returns %s" % bad_ret[:2])
+    R.inst("R10.7", "register-shape", not probs, "register: %s" % (probs or "inserts the boxed action into its own map and returns (downgrade(map), key)"), where=rg.span, cfg=cfg)
+
     # ---- R10.6 the slot holding the map is never overwritten while it holds one -------------------------------------------
     R.doc("R10.6", "a Drop of the Cleaner's map slot (an assignment to it drops the old value, and with it every registered action) outside the Cleaner's own drop glue is provably a no-op (slot is None)")
     k = 0
